@@ -12,7 +12,7 @@ LEAN_MODULE = "Proofs.C17"
 _T = "SE.Proofs.C17."
 THEOREMS = [_T + n for n in [
     "C17_crop_exact", "C17_crop_rejects", "C17_extend_lattice", "C17_extend_keeps", "C17_extend_fill",
-    "C17_width", "C17_placement", "C17_regular_axis_continues", "C17_arange_by_count"]]
+    "C17_width", "C17_placement", "C17_regular_axis_continues", "C17_step_known", "C17_arange_by_count"]]
 LEVEL_TEXT = ("Lean theorems over the rational model of crop_dim (exactly the samples in the requested interval when no "
               "coordinate lies within eps of an open end), extend_dim (result = the axis lattice inside the requested "
               "interval, original samples kept, new ones filled) and adjust_dim_width / crop_dim_width / extend_dim_width "
